@@ -11,6 +11,7 @@ import (
 	"strconv"
 	"strings"
 	"sync"
+	"sync/atomic"
 	"time"
 
 	"golang.org/x/tools/go/ssa"
@@ -38,6 +39,7 @@ func main() {
 	keep := fs.Bool("keep", false, "keep SMT files of proved obligations")
 	noEvidence := fs.Bool("noevidence", false, "do not write evidence")
 	timeoutFlag := fs.Int("timeout", 0, "per-obligation timeout in seconds (0 = tier default)")
+	writeHintsFlag := fs.Bool("writehints", false, "record solver/seed hints for obligations that needed a non-default attempt (hints/<prop>.json)")
 	fs.Parse(os.Args[2:])
 
 	eng := &Engine{repoDir: *repo, verifDir: *verif}
@@ -188,6 +190,14 @@ func main() {
 			jobs = append(jobs, job{g, o})
 		}
 	}
+	writeHints = *writeHintsFlag
+	if *prop != "" {
+		if b, err := os.ReadFile(filepath.Join(*verif, "hints", *prop+".json")); err == nil {
+			json.Unmarshal(b, &hints)
+		}
+	}
+	var undischarged int32
+	const maxUndischarged = 24
 	solveStart := time.Now()
 	jch := make(chan job)
 	var swg sync.WaitGroup
@@ -196,7 +206,16 @@ func main() {
 		go func() {
 			defer swg.Done()
 			for j := range jch {
+				if atomic.LoadInt32(&undischarged) >= maxUndischarged && !writeHints {
+					// the run is already a violation many times over: the remaining obligations are not attempted
+					// (each undischarged obligation costs the full race of every solver and seed)
+					j.o.Status = "skipped"
+					continue
+				}
 				discharge(j.g, j.o, workDir, timeout, st)
+				if j.o.Status != "proved" && !j.o.MustSat {
+					atomic.AddInt32(&undischarged, 1)
+				}
 				if j.o.Status == "proved" && !*keep {
 					os.Remove(j.o.SMTFile)
 				}
@@ -209,6 +228,24 @@ func main() {
 	close(jch)
 	swg.Wait()
 	solveSecs := time.Since(solveStart).Seconds()
+	if writeHints && *prop != "" && *unitFilter == "" && *oblFilter == "" {
+		// keep earlier hints of obligations that were proved by their hint again; replace the rest
+		merged := map[string]proofHint{}
+		for _, j := range jobs {
+			if j.o.Status != "proved" {
+				continue
+			}
+			if nh, ok := newHints[j.o.Name]; ok {
+				merged[j.o.Name] = nh
+			} else if oh, ok := hints[j.o.Name]; ok && strings.HasPrefix(j.o.Solver, oh.Solver) && j.o.Time < 4 {
+				merged[j.o.Name] = oh
+			}
+		}
+		os.MkdirAll(filepath.Join(*verif, "hints"), 0o755)
+		b, _ := json.MarshalIndent(merged, "", " ")
+		os.WriteFile(filepath.Join(*verif, "hints", *prop+".json"), b, 0o644)
+		fmt.Printf("govc: wrote %d hints to hints/%s.json\n", len(merged), *prop)
+	}
 
 	// report
 	var allObls []*Obligation
@@ -342,6 +379,7 @@ func loadKnownFindings(path string) []knownFinding {
 func (r *Report) finish(noEvidence bool) int {
 	known := loadKnownFindings(filepath.Join(r.verif, "known_findings.txt"))
 	nObl, nProved, nCover, nCoverOK := 0, 0, 0, 0
+	nSkipped := 0
 	var failed []*Obligation
 	var samples []interface{}
 	kinds := map[string]int{}
@@ -354,6 +392,10 @@ func (r *Report) finish(noEvidence bool) int {
 				// precondition unsatisfiable: vacuous contract
 				failed = append(failed, o)
 			}
+			continue
+		}
+		if o.Status == "skipped" {
+			nSkipped++
 			continue
 		}
 		nObl++
@@ -475,6 +517,9 @@ func (r *Report) finish(noEvidence bool) int {
 		os.WriteFile(filepath.Join(replayDir, "vacuous.json"), []byte(`{"error":"zero obligations generated"}`), 0o644)
 	}
 
+	if nSkipped > 0 {
+		fmt.Printf("govc: %d further obligations were not attempted after %d undischarged ones\n", nSkipped, violations)
+	}
 	fmt.Printf("govc: property=%s tier=%s units=%d obligations=%d discharged=%d covers=%d/%d failed=%d known=%d load=%.1fs gen=%.1fs solve=%.1fs\n",
 		orDefault(r.prop, "all"), r.tier, len(r.units), nObl, nProved, nCoverOK, nCover, violations, knownHit, r.LoadS, r.GenS, r.SolveS)
 
